@@ -111,6 +111,8 @@ func newSystem(c config) (*system, error) {
 		s := hk.NewSession(nil, nil)
 		s.T = sys.t
 		for st := 1; st <= 2; st++ {
+			// an earlier binding of the same SSRC (its writer is gone): the stream's writer is the one registered last
+			p.AddStream(ssrc(st), &hk.RTPSink{})
 			p.AddStream(ssrc(st), s.SinkFor(st))
 		}
 		sys.api = pacerAPI{icpt: p,
@@ -134,6 +136,12 @@ func newSystem(c config) (*system, error) {
 		s := hk.NewSession(nil, nil)
 		s.T = sys.t
 		w := map[int]interceptor.RTPWriter{}
+		// an earlier life of both streams (bound with a writer that is gone, then unbound)
+		for st := 1; st <= 2; st++ {
+			old := &interceptor.StreamInfo{SSRC: ssrc(st)}
+			i.BindLocalStream(old, &hk.RTPSink{})
+			i.UnbindLocalStream(old)
+		}
 		w[1] = i.BindLocalStream(&interceptor.StreamInfo{SSRC: ssrc(1), RTCPFeedback: []interceptor.RTCPFeedback{{Type: "transport-cc"}},
 			RTPHeaderExtensions: []interceptor.RTPHeaderExtension{{URI: hk.TransportCCURI, ID: hk.TwccExtID}}}, s.SinkFor(1))
 		w[2] = i.BindLocalStream(&interceptor.StreamInfo{SSRC: ssrc(2)}, s.SinkFor(2))
